@@ -26,6 +26,7 @@ def run(repo, run, tier):
     stores(repo, run, m)
     orientation(repo, run, m)
     restore(repo, run, m)
+    exits(repo, run, m)
 
 
 # ------------------------------------------------------------------------------------------------
@@ -432,3 +433,52 @@ def restore(repo, run, m):
     run.judged(rid, "re-commit followed by counter += 1 in the same block", ok=ok)
     if not ok:
         run.report("C03.6", DS, restores[0], "the re-committed row is not followed by `counter += 1` in the same block", text="re-commit increment")
+
+
+def exits(repo, run, m):
+    """ends at the target: the step loop can be left only because the distance test fails (target reached) or a terminal event was found"""
+    rid = run.rule("C03.7", "exit discipline of the step loop: the names its `while` test reads are rebound inside the loop only by the event handler's "
+                            "result (terminal event); there is no `break`/`return` out of the step loop other than under that flag: the loop cannot "
+                            "stop short of the target for any other reason (e.g. 'the clamped last step was requested', which the integrator may shorten)", floor=2)
+    loop = m.loop
+    test_names = {n.id for n in ast.walk(loop.test) if isinstance(n, ast.Name)}
+    stop_flags = set()
+    for st in walk_no_nested(loop):
+        tg = st.targets if isinstance(st, ast.Assign) else ([st.target] if isinstance(st, (ast.AugAssign, ast.AnnAssign)) else [])
+        if isinstance(st, ast.For):
+            tg = [st.target]
+        names = {x.id for t in tg for x in ast.walk(t) if isinstance(x, ast.Name) and isinstance(x.ctx, ast.Store)} & test_names
+        if isinstance(st, (ast.For,)) and st is not loop:
+            names = {x.id for x in ast.walk(st.target) if isinstance(x, ast.Name)} & test_names
+        if not names or any(st is b for b in [loop]):
+            continue
+        from_handler = isinstance(st, ast.Assign) and isinstance(st.value, ast.Call) and dotted(st.value.func) == "handle_events"
+        for nme in sorted(names):
+            run.judged(rid, "loop-test name `%s` rebound by `%s`" % (nme, src(st)[:80]), ok=from_handler)
+            if from_handler:
+                stop_flags.add(nme)
+            else:
+                run.report("C03.7", DS, st, "`%s`, which the step loop's test reads, is rebound inside the loop by something other than the event handler's "
+                                            "result: the loop can end although the target was not reached (the integrator may have shortened the step)" % nme)
+    # break / return leaving the loop
+    from ..sym import path_condition, tree_atoms
+    for st in walk_no_nested(loop):
+        if isinstance(st, (ast.Break, ast.Return)):
+            inner = next((a for a in ancestors(st) if isinstance(a, (ast.For, ast.While))), None)
+            if isinstance(st, ast.Break) and inner is not loop:
+                continue
+            pc, _ = path_condition(st, loop)
+            ats = {a.split("@")[0] for a in tree_atoms(pc)}
+            ok = bool(ats & stop_flags)
+            run.judged(rid, "`%s` out of the step loop under %s" % (src(st)[:40], sorted(ats)), ok=ok)
+            if not ok:
+                run.report("C03.7", DS, st, "the step loop is left by `%s` under a condition that is not the terminal-event flag" % src(st)[:40])
+    run.judged(rid, "stop flags of the step loop: %s" % sorted(stop_flags), ok=True)
+    # each stop flag is initialised False before the loop
+    for nme in sorted(stop_flags):
+        init = [st for st in walk_no_nested(m.fn) if isinstance(st, ast.Assign) and any(isinstance(t, ast.Name) and t.id == nme for t in st.targets)
+                and path_key(st, m.fn) < path_key(loop, m.fn)]
+        ok = bool(init) and all(isinstance(st.value, ast.Constant) and st.value.value is False for st in init)
+        run.judged(rid, "`%s` starts False" % nme, ok=ok)
+        if not ok:
+            run.report("C03.7", DS, init[0] if init else loop, "the stop flag `%s` is not initialised to False before the step loop" % nme, text="stop flag initial value")
